@@ -141,6 +141,9 @@ class MessageReader:
         except etree.XMLSyntaxError as ex:
             self._logger.warning('Error reading response ex=%r xml=%s', ex, xml_text.decode('utf-8'))
             raise
+        if doc_root.getroottree().docinfo.doctype:
+            # internal entities are expanded in attribute values even with resolve_entities=False
+            raise ValueError('DOCTYPE is not allowed in a SOAP message')
         if validate:
             self._validate_node(doc_root)
 
